@@ -91,6 +91,23 @@ func checkSyntaxErrorSite(c *Ctx, g *ebnfGrammar, d *driverFacts) {
 				pe = a
 			}
 		}
+		if pe == nil {
+			// built by a helper of the module (syntaxError(token, cause)): which token's fields it takes is not followed here
+			if call, isCall := retOperand(ret, 0).(*ssa.Call); isCall {
+				if cf := call.Call.StaticCallee(); cf != nil && strings.HasPrefix(fnPkgPath(cf), modPath) {
+					c.Undecided("R20.2", "the syntax error is a fresh ParseError value", ret.Pos(), "the error returned on an ACTION failure is built by "+shortFn(cf)+", which this rule does not look into")
+					continue
+				}
+			}
+			if mi, isMI := retOperand(ret, 0).(*ssa.MakeInterface); isMI {
+				if call, isCall := mi.X.(*ssa.Call); isCall {
+					if cf := call.Call.StaticCallee(); cf != nil && strings.HasPrefix(fnPkgPath(cf), modPath) {
+						c.Undecided("R20.2", "the syntax error is a fresh ParseError value", ret.Pos(), "the error returned on an ACTION failure is built by "+shortFn(cf)+", which this rule does not look into")
+						continue
+					}
+				}
+			}
+		}
 		if !c.Check("R20.2", "the syntax error is a fresh ParseError value", ret.Pos(), pe != nil, "the error returned on an ACTION failure is not a locally built value") {
 			continue
 		}
@@ -279,27 +296,44 @@ func checkFilenamePlumbing(c *Ctx) {
 	cp := c.Pkg("internal/command")
 	if fd := FuncDecl(cp, "Command", "Run"); fd != nil {
 		fn := c.SSAFunc(cp, fd)
-		okName := false
+		okName, sawParse := false, false
+		// Run itself, or a helper of the package it calls (a `load(path)` that opens and parses)
+		cands := []*ssa.Function{fn}
 		allCalls(fn, func(call ssa.CallInstruction) {
-			cv, ok := call.(*ssa.Call)
-			if !ok || cv.Call.StaticCallee() != nil || cv.Call.IsInvoke() {
-				return
-			}
-			sig := cv.Call.Signature()
-			if sig.Params().Len() == 2 && sig.Results().Len() == 2 && isString(sig.Params().At(0).Type()) {
-				// c.funcs.Parse(filename, f)
-				if b, ok := cv.Call.Args[0].(*ssa.Call); ok && staticCalleeName(b) == "path/filepath.Base" {
-					// the same path that is opened
-					var opened ssa.Value
-					allCalls(fn, func(c2 ssa.CallInstruction) {
-						if staticCalleeName(c2) == "os.Open" {
-							opened = c2.Common().Args[0]
-						}
-					})
-					okName = opened != nil && opened == b.Call.Args[0]
-				}
+			if cf := call.Common().StaticCallee(); cf != nil && len(cf.Blocks) > 0 && fnPkgPath(cf) == fnPkgPath(fn) {
+				cands = append(cands, cf)
 			}
 		})
+		for _, g := range cands {
+			g := g
+			allCalls(g, func(call ssa.CallInstruction) {
+				cv, ok := call.(*ssa.Call)
+				if !ok || cv.Call.StaticCallee() != nil || cv.Call.IsInvoke() {
+					return
+				}
+				sig := cv.Call.Signature()
+				if sig.Params().Len() == 2 && sig.Results().Len() == 2 && isString(sig.Params().At(0).Type()) {
+					sawParse = true
+					// c.funcs.Parse(filename, f)
+					if b, ok := cv.Call.Args[0].(*ssa.Call); ok && staticCalleeName(b) == "path/filepath.Base" {
+						// the same path that is opened
+						var opened ssa.Value
+						allCalls(g, func(c2 ssa.CallInstruction) {
+							if staticCalleeName(c2) == "os.Open" {
+								opened = c2.Common().Args[0]
+							}
+						})
+						if opened != nil && opened == b.Call.Args[0] {
+							okName = true
+						}
+					}
+				}
+			})
+		}
+		if !sawParse {
+			c.Undecided("R20.4", "Run names the file it opens (base name of the chosen argument)", fd.Pos(), "the call of the parse function was not found in Run or in a helper of the package it calls")
+			okName = true
+		}
 		c.Check("R20.4", "Run names the file it opens (base name of the chosen argument)", fd.Pos(), okName, "the name handed to Parse is not derived from the path that is opened")
 	}
 }
